@@ -681,10 +681,10 @@ attrsLoop:
 						var appended bool
 						if htmlAttr.Key == "rel" && (addNoFollow || addNoReferrer) {
 
-							if addNoFollow && !strings.Contains(htmlAttr.Val, "nofollow") {
+							if addNoFollow && !hasRelToken(htmlAttr.Val, "nofollow") {
 								htmlAttr.Val += " nofollow"
 							}
-							if addNoReferrer && !strings.Contains(htmlAttr.Val, "noreferrer") {
+							if addNoReferrer && !hasRelToken(htmlAttr.Val, "noreferrer") {
 								htmlAttr.Val += " noreferrer"
 							}
 							noFollowFound = addNoFollow
@@ -758,7 +758,7 @@ attrsLoop:
 						for _, htmlAttr := range cleanAttrs {
 							var appended bool
 							if htmlAttr.Key == "rel" {
-								if strings.Contains(htmlAttr.Val, "noopener") {
+								if hasRelToken(htmlAttr.Val, "noopener") {
 									noOpenerAdded = true
 									tmpAttrs = append(tmpAttrs, htmlAttr)
 								} else {
@@ -1026,6 +1026,16 @@ func linkable(elementName string) bool {
 	default:
 		return false
 	}
+}
+
+// hasRelToken returns true if the space separated rel value contains token
+func hasRelToken(rel string, token string) bool {
+	for _, t := range strings.Fields(rel) {
+		if strings.EqualFold(t, token) {
+			return true
+		}
+	}
+	return false
 }
 
 // stringInSlice returns true if needle exists in haystack
